@@ -327,6 +327,21 @@ func (h kvHandler) handleKvCheckTxnStatus(req *kvrpcpb.CheckTxnStatusRequest) *k
 		panic("KvCheckTxnStatus: key not in region")
 	}
 	var resp kvrpcpb.CheckTxnStatusResponse
+	if req.GetVerifyIsPrimary() {
+		// A lock of the transaction on this key that names another key as its primary (a stale lock of a
+		// pessimistic transaction whose primary changed) is not the primary lock: report it, change nothing.
+		locks, err := h.mvccStore.ScanLock(req.GetPrimaryKey(), append(append([]byte{}, req.GetPrimaryKey()...), 0), math.MaxUint64)
+		if err != nil {
+			resp.Error = convertToKeyError(err)
+			return &resp
+		}
+		for _, l := range locks {
+			if l.GetLockVersion() == req.GetLockTs() && !bytes.Equal(l.GetPrimaryLock(), req.GetPrimaryKey()) {
+				resp.Error = &kvrpcpb.KeyError{PrimaryMismatch: &kvrpcpb.PrimaryMismatch{LockInfo: l}}
+				return &resp
+			}
+		}
+	}
 	ttl, commitTS, action, err := h.mvccStore.CheckTxnStatus(req.GetPrimaryKey(), req.GetLockTs(), req.GetCallerStartTs(), req.GetCurrentTs(), req.GetRollbackIfNotExist(), req.ResolvingPessimisticLock)
 	if err != nil {
 		resp.Error = convertToKeyError(err)
